@@ -17,7 +17,7 @@ PLAN = {
 }
 RULE = ("case = pair of connected simple graphs (paths, cycles, stars, random trees, cliques minus edges, G(n,p) over a "
         "spanning tree, relabelled copies, copy + pendant vertex, copy with one edge toggled; 1..10 vertices with exact "
-        "reference, ..30 size-free in thorough) x mapping_sample_size_order from a set including "
+        "reference, 1 % up to 30 and 1 % up to 220 vertices with the size-free clauses only) x mapping_sample_size_order from a set including "
         "[0,0] (one mapping), the default and negative exponents; evaluated k=2..4 times, each with the NumPy global "
         "RNG seen by the heuristic replaced by a scheduler-owned generator (modes uniform / identity / reverse / "
         "constant / sticky) or the real MT19937 under a drawn seed. Oracle: exact 2*mGH by branch-and-bound over all "
@@ -46,13 +46,18 @@ def gen_case(rng, tier):
         max_n = 5
     elif r < 0.55:
         max_n = 7
-    elif r < 0.97 or tier == "quick":
+    elif r < 0.97:
         max_n = 10          # sparse pairs of this size are where the curvature bound has to work
-    else:
+    elif r < (0.9985 if tier == "quick" else 0.995):
         max_n = 30
         big = True
+    else:
+        # beyond every exact oracle (size-free clauses only) and beyond int8 diameters / vertex counts;
+        # rare because one such evaluation costs seconds
+        max_n = rng.choice((70, 100, 128, 140) if tier == "quick" else (70, 100, 130, 160, 220))
+        big = True
     G, H, iso = mg.gen_pair(rng, max_n)
-    k = rng.randint(2, 4)
+    k = rng.randint(2, 4) if max_n <= 30 else 1
     return {
         "inputs": {"G": G, "H": H, "iso": iso, "mso": list(rng.choice(mg.MSO_CHOICES)),
                    "repG": {"fmt": rng.choice(("csr", "dense", "list")), "fill": "upper", "dtype": "int"},
